@@ -398,35 +398,36 @@ def _uniqueness_guard(lib, c, c0):
         pushed = strip(term_of(c, p.node["args"][1]), mir.VALUE_PRESERVING)
         # `candidates.find(|c| !reserved.contains(c)).expect(..)`: the value is the Some payload built on the hit edge
         # of the search loop; the guards of that edge are the guards of the value
-        def some_site(t):
+        def some_sites(t):
+            """the `Some(x)` definitions behind expect/unwrap of a search result (one per hit edge of the search loop(s))"""
             if t[0] == "call" and t[1] in ("std::option::Option::expect", "std::option::Option::unwrap") and t[2]:
                 d0 = strip(t[2][0])
                 if d0[0] == "local":
-                    somes = [d for d in c.defs().get(d0[1], []) if d.si is not None and d.node["k"] == "assign" and d.node["rv"]["k"] == "agg" and d.node["rv"].get("variant") == "Some"]
-                    if len(somes) == 1:
-                        return somes[0]
-            return None
-        ss = some_site(pushed)
-        if ss is not None:
-            g = g + guards_of(c, ss.bb)
-            pushed = strip(term_of(c, ss.node["rv"]["ops"][0]), mir.VALUE_PRESERVING)
-        cont = [x for x in g if x[0] == "call" and x[3] is False and (x[1] in CONTAINS or _any_equals(lib, c, x))]
-        same = False
-        for x in cont:
-            tested = strip(x[2][1]) if x[1] in CONTAINS else _any_needle(lib, c, x)
-            if tested is not None and _same_var(tested, pushed):
-                if len(x) > 5 and pushed[0] == "local":
-                    region = c.reach_from(x[5][1], avoid={x[5][0]})
-                    redefs = [d for d in c.defs().get(pushed[1], []) if d.bb in region and p.bb in c.reach_from(d.bb)]
-                    same = not redefs
-                else:
-                    same = True
-        ret = _returned_after(c, p)
-        if ret is not None and some_site(ret) is not None:
-            ret = strip(term_of(c, some_site(ret).node["rv"]["ops"][0]), mir.VALUE_PRESERVING)
-        ok = bool(cont) and same and ret is not None and _same_var(ret, pushed)
+                    return [d for d in c.defs().get(d0[1], []) if d.si is not None and d.node["k"] == "assign" and d.node["rv"]["k"] == "agg" and d.node["rv"].get("variant") == "Some"]
+            return []
+        base_g = g
+        alts = [(base_g + guards_of(c, ss.bb), strip(term_of(c, ss.node["rv"]["ops"][0]), mir.VALUE_PRESERVING)) for ss in some_sites(pushed)] or [(base_g, pushed)]
+        ret0 = _returned_after(c, p)
+        ret_alts = [strip(term_of(c, ss.node["rv"]["ops"][0]), mir.VALUE_PRESERVING) for ss in some_sites(ret0)] if ret0 is not None and some_sites(ret0) else [ret0]
+        res = []
+        for i, (g_i, pushed_i) in enumerate(alts):
+            cont = [x for x in g_i if x[0] == "call" and x[3] is False and (x[1] in CONTAINS or _any_equals(lib, c, x))]
+            same = False
+            for x in cont:
+                tested = strip(x[2][1]) if x[1] in CONTAINS else _any_needle(lib, c, x)
+                if tested is not None and _same_var(tested, pushed_i):
+                    if len(x) > 5 and pushed_i[0] == "local":
+                        region = c.reach_from(x[5][1], avoid={x[5][0]})
+                        redefs = [d for d in c.defs().get(pushed_i[1], []) if d.bb in region and p.bb in c.reach_from(d.bb)]
+                        same = not redefs
+                    else:
+                        same = True
+            ret_i = ret_alts[i] if len(ret_alts) == len(alts) else ret_alts[0]
+            res.append((bool(cont), same, ret_i is not None and _same_var(ret_i, pushed_i)))
+        ok = all(all(x) for x in res)
         why = "a name is reserved only on the `!reserved.contains(name)` edge and that same name is returned" if ok else \
-            "reservation: guarded by !contains=%s of the pushed value=%s, returned value is the pushed one=%s" % (bool(cont), same, ret is not None and _same_var(ret, pushed))
+            "reservation: guarded by !contains=%s of the pushed value=%s, returned value is the pushed one=%s" % (
+                all(x[0] for x in res), all(x[1] for x in res), all(x[2] for x in res))
     return ok, why, (pushes[0] if pushes else mir.line_of(c0.span))
 
 
